@@ -383,8 +383,13 @@ fn main() {
     let mut sim = Sim::new();
     let (init_fung, init_nf) = (sim.init_fung, sim.init_nf.clone());
     let init_coq = format!("({}, {}, {})", coq_z(init_fung[0]), coq_z(init_fung[1]), coq_ids(&init_nf));
-    let bnd = boundary_cases();
-    for i in 0..args.cases.max(bnd.len()) {
+    let mut bnd = boundary_cases();
+    let (a, b, c) = (2i128, 3i128, 5i128);
+    let ms = vec![vec![a, a, b], vec![a, b, b], vec![a, b, c], vec![a, a, a, b]];
+    bnd.extend(proof_order_family(true, &ms));
+    bnd.extend(proof_order_family(false, &[ms[0].clone(), ms[2].clone()]));
+    bnd.extend(proof_order_family_nf());
+    for i in 0..(args.cases + bnd.len()) {
         let mut rng = root.fork(i as u64);
         let ops = match bnd.get(i) {
             Some((class, ops)) => {
@@ -475,13 +480,7 @@ fn main() {
     report.floor("tx_failure", (args.cases as u64) / 10);
     report.floor("proofs_created", args.cases as u64);
     report.floor("fail_ELocked", (args.cases as u64) / 100);
-    let mut per_class: std::collections::BTreeMap<&str, u64> = Default::default();
-    for (c, _) in &bnd {
-        *per_class.entry(*c).or_insert(0) += 1;
-    }
-    for (c, n) in per_class {
-        report.floor(c, n);
-    }
+    class_floors(&mut report, &bnd);
     cw.write(&args.out, args.shards).unwrap();
     report.write(&args.out).unwrap();
 }
